@@ -1,14 +1,20 @@
-(* C17 -- Action outcomes are classified exactly and output is captured intact.
+(* C17 -- Action outcomes are classified exactly, output is captured intact, and the process-wide
+   sys.stdout / sys.stderr are the original objects again after every action and every run --
+   also when a callable raises, exceptions that are not `Exception` subclasses (SystemExit,
+   KeyboardInterrupt, ...) included.
    Statements only; every proof is `exact <lemma of Proofs/ActionP.v>` or a closed computation. *)
 From DoitV Require Import Base Action ActionP.
 Open Scope Z_scope.
 
-(* python-action: success iff True/None/str/dict, failure iff False/TaskFailed, error otherwise *)
+(* python-action: success iff True/None/str/dict, failure iff False/TaskFailed, error otherwise;
+   nothing is returned (the exception leaves execute) iff the callable raised a BaseException
+   that is not an Exception *)
 Theorem C17_py_classify : forall t : rtag,
   (py_classify t = AOk <-> t = RTrue \/ t = RNone \/ t = RStr \/ t = RDict) /\
   (py_classify t = AFailed <-> t = RFalse \/ t = RTaskFailed) /\
-  (py_classify t = AError <-> t = RRaises \/ t = RTaskError \/ t = ROther).
-Proof. intro t. exact (conj (py_classify_ok t) (conj (py_classify_failed t) (py_classify_error t))). Qed.
+  (py_classify t = AError <-> t = RRaises \/ t = RTaskError \/ t = ROther) /\
+  (py_classify t = APropagates <-> t = RBaseExc).
+Proof. intro t. exact (conj (py_classify_ok t) (conj (py_classify_failed t) (conj (py_classify_error t) (py_classify_propagates t)))). Qed.
 Print Assumptions C17_py_classify.
 
 (* cmd-action: every integer exit status, negative (signalled) ones included *)
@@ -19,9 +25,19 @@ Theorem C17_cmd_classify : forall rc : Z,
 Proof. exact cmd_classify_spec. Qed.
 Print Assumptions C17_cmd_classify.
 
-(* a task stops at its first unsuccessful action; result = result of the last action that
-   succeeded (the previous one if none ran), values = left-to-right merge over those actions;
-   exactly the successful prefix plus the failing action were executed *)
+(* cmd-action whose command is computed by a callable: an exception leaves execute iff that
+   callable raised a BaseException that is not an Exception; an Exception is a TaskError *)
+Theorem C17_cmd_execute : forall x rc,
+  (cmd_execute x rc = APropagates <-> x = XBaseExc) /\
+  (x = XRaises -> cmd_execute x rc = AError) /\
+  (x = XString -> cmd_execute x rc = cmd_classify rc).
+Proof. exact cmd_execute_spec. Qed.
+Print Assumptions C17_cmd_execute.
+
+(* a task stops at its first unsuccessful action (one whose exception propagates included);
+   result = result of the last action that succeeded (the previous one if none ran), values =
+   left-to-right merge over those actions; exactly the successful prefix plus the failing action
+   were executed *)
 Theorem C17_task_execute : forall acts res vals,
   let x := task_execute acts res vals 0 in
   x_out x = match first_bad acts with None => AOk | Some a => a_out a end /\
@@ -39,45 +55,136 @@ Theorem C17_task_execute_prefix : forall acts,
 Proof. intro acts. exact (conj (ok_prefix_all_ok acts) (conj (first_bad_not_ok acts) (ok_prefix_is_prefix acts))). Qed.
 Print Assumptions C17_task_execute_prefix.
 
+Theorem C17_task_propagates : forall acts,
+  task_outcome acts = APropagates <->
+  exists pre a post, acts = pre ++ a :: post /\ (forall x, In x pre -> py_classify (as_tag x) = AOk) /\
+                     as_tag a = RBaseExc.
+Proof. exact task_outcome_propagates. Qed.
+Print Assumptions C17_task_propagates.
+
 (* capture (model of the Writer/StringIO discipline only; the byte-level behaviour of pipes and
-   StringIO is exercised by the correspondence check, not proved): everything written is
-   captured per stream, in order, whatever the verbosity; shown live only as verbosity dictates *)
-Theorem C17_capture_partial : forall v ws,
-  c_out (py_capture v ws) = chunks false ws /\ c_err (py_capture v ws) = chunks true ws /\
-  c_live_out (py_capture v ws) = (if (v =? 0) || (v =? 1) then [] else chunks false ws) /\
-  c_live_err (py_capture v ws) = (if v =? 0 then [] else chunks true ws).
+   StringIO is exercised by the correspondence check, not proved).  One action run by Task.execute
+   on the original streams, whatever way [e] its callable ends -- RBaseExc included:
+   capture on: everything written is in self.out / self.err, per stream and in order, whatever
+   the verbosity, and shown live only as verbosity dictates; capture off: self.out / self.err stay
+   None and everything is shown; in all cases both cells hold the original streams afterwards *)
+Theorem C17_capture_partial : forall cap v ws e,
+  let c := py_capture cap v ws e in
+  c_out c = (if cap then Some (chunks false ws) else None) /\
+  c_err c = (if cap then Some (chunks true ws) else None) /\
+  c_live_out c = (if cap && ((v =? 0) || (v =? 1)) then [] else chunks false ws) /\
+  c_live_err c = (if cap && (v =? 0) then [] else chunks true ws) /\
+  c_cell_out c = SOrig /\ c_cell_err c = SOrig.
 Proof. exact capture_complete. Qed.
 Print Assumptions C17_capture_partial.
 
-(* process-wide stream: original again after any properly nested sequence of action executions
-   (anything one thread can do, actions raising or failing in _prepare_kwargs included) *)
-Theorem C17_restore_nested : forall ops, nested ops -> s_cell (srun false ops) = SOrig.
-Proof. intros ops H. exact (nested_restores ops H s_init). Qed.
+(* one capturing execution started in ANY state (nested inside others, any stream installed, any
+   live stream [f] that does not lead back to its own buffer), either channel [b], any outcome
+   [e]: the cell is what it was before, self.out is exactly what was written, the original stream
+   got it iff the live stream leads there, no other action's attribute changed *)
+Theorem C17_capture_every_outcome : forall (b : bool) s i mo me f ws e,
+  (if b then me else mo) = MCapture f -> ~ In i (writer_ids f) ->
+  let s' := fold_left (sstep false b) (one_action i mo me ws e) s in
+  s_cell s' = s_cell s /\ s_attr s' i = Some (chunks b ws) /\
+  s_orig s' = s_orig s ++ (if reaches_orig f then chunks b ws else []) /\
+  (forall j, j <> i -> s_attr s' j = s_attr s j).
+Proof. intros b s i mo me f ws e. exact (action_capture false b s i mo me f ws e). Qed.
+Print Assumptions C17_capture_every_outcome.
+
+(* the same with capture off (stream redirected to the one given, or left alone) *)
+Theorem C17_nocapture_every_outcome : forall (b : bool) s i mo me ws e,
+  (exists t, (if b then me else mo) = MRedirect t) \/ (if b then me else mo) = MKeep ->
+  let s' := fold_left (sstep false b) (one_action i mo me ws e) s in
+  s_cell s' = s_cell s /\ s_attr s' = s_attr s /\
+  s_orig s' = s_orig s ++ (if reaches_orig (match (if b then me else mo) with MRedirect t => t | _ => s_cell s end)
+                           then chunks b ws else []).
+Proof. intros b s i mo me ws e. exact (action_nocapture false b s i mo me ws e). Qed.
+Print Assumptions C17_nocapture_every_outcome.
+
+(* process-wide streams: original again after any properly nested sequence of action executions
+   (anything one thread can do: actions writing, returning, raising Exceptions, raising
+   BaseExceptions that escape -- the [e] of each Exit is arbitrary --, failing in
+   _prepare_kwargs; capture on or off, with or without live streams) *)
+Theorem C17_restore_nested : forall b ops, nested ops -> s_cell (srun false b ops) = SOrig.
+Proof. intros b ops H. exact (nested_restores b ops H s_init). Qed.
 Print Assumptions C17_restore_nested.
 
-Theorem C17_restore_sequential : forall ids, s_cell (srun false (sequential ids)) = SOrig.
-Proof. intro ids. exact (nested_restores _ (sequential_nested ids) s_init). Qed.
+Theorem C17_restore_sequential : forall b xs, s_cell (srun false b (sequential xs)) = SOrig.
+Proof. intros b xs. exact (nested_restores b _ (sequential_nested xs) s_init). Qed.
 Print Assumptions C17_restore_sequential.
 
+(* ... and every capturing execution in it has set self.out / self.err by then *)
+Theorem C17_attr_set_nested : forall (b : bool) ops i mo me f,
+  nested ops -> In (Enter i mo me) ops -> (if b then me else mo) = MCapture f ->
+  s_attr (srun false b ops) i <> None.
+Proof. intros b ops i mo me f H. exact (nested_attr_set b ops H s_init i mo me f). Qed.
+Print Assumptions C17_attr_set_nested.
+
+(* one task (Task.execute) and one run of a chain of tasks, teardown actions included (serial
+   runner, thread runner with one worker, DoitMain.run): whatever the actions do, both cells hold
+   the original streams when the task / the run is over -- also when it is over because an
+   exception escaped *)
+Theorem C17_restore_task : forall b cap v acts, s_cell (srun false b (task_ops cap v acts)) = SOrig.
+Proof. intros b cap v acts. exact (nested_restores b _ (task_ops_nested cap v acts) s_init). Qed.
+Print Assumptions C17_restore_task.
+
+Theorem C17_restore_run : forall b v tasks, s_cell (srun false b (run_ops v tasks [])) = SOrig.
+Proof. intros b v tasks. exact (nested_restores b _ (run_ops_nested v tasks [] n_nil) s_init). Qed.
+Print Assumptions C17_restore_run.
+
+(* every action the task started -- the one that ended it included, whatever its outcome -- holds
+   exactly what it wrote (capture on; None with capture off); actions not started hold None *)
+Theorem C17_capture_task : forall cap v b acts a,
+  NoDup (map as_id acts) -> In a acts ->
+  s_attr (srun false b (task_ops cap v acts)) (as_id a) =
+  if existsb (fun x => Nat.eqb (as_id x) (as_id a)) (started acts) && cap
+  then Some (chunks b (as_ws a)) else None.
+Proof. intros cap v b acts a Hnd Hin. exact (task_capture cap v b acts s_init Hnd a Hin). Qed.
+Print Assumptions C17_capture_task.
+
 Example C17_nested_nonvacuous :
-  nested [Enter 1 false; Enter 2 false; Exit 2; Enter 3 true; Exit 1; Enter 4 false; Exit 4].
+  nested [Enter 1 (MCapture SOrig) (MCapture SNone); Write false 7; Enter 2 (MCapture SNone) (MCapture SNone);
+          Write true 8; Exit 2 RBaseExc; Enter 3 MFail MFail; Exit 1 RBaseExc;
+          Enter 4 MKeep (MRedirect (SLive 0)); Exit 4 RRaises].
 Proof.
-  apply (n_app 1 [Enter 2 false; Exit 2; Enter 3 true] [Enter 4 false; Exit 4]).
-  - apply (n_app 2 [] [Enter 3 true]); [constructor | repeat constructor | simpl; tauto].
-  - apply (n_app 4 [] []); [constructor | constructor | simpl; tauto].
+  apply (n_app 1 _ _ RBaseExc
+               [Write false 7; Enter 2 (MCapture SNone) (MCapture SNone); Write true 8; Exit 2 RBaseExc; Enter 3 MFail MFail]
+               [Enter 4 MKeep (MRedirect (SLive 0)); Exit 4 RRaises]); try discriminate.
+  - constructor.
+    apply (n_app 2 _ _ RBaseExc [Write true 8] [Enter 3 MFail MFail]); try discriminate; [repeat constructor | repeat constructor | simpl; tauto].
+  - apply (n_app 4 _ _ RRaises [] []); try discriminate; [constructor | constructor | simpl; tauto].
   - simpl. intros [H|[H|[H|H]]]; try discriminate; auto.
 Qed.
+
+(* sys.exit() after writing, verbosity 2, capture on: both streams back, everything captured and shown *)
+Example C17_capture_nonvacuous :
+  py_capture true 2 [(false, 1); (true, 2); (false, 3)] RBaseExc =
+  {| c_out := Some [1; 3]; c_err := Some [2]; c_live_out := [1; 3]; c_live_err := [2];
+     c_cell_out := SOrig; c_cell_err := SOrig |}.
+Proof. vm_compute. reflexivity. Qed.
+
+(* a task whose second action raises SystemExit: the third is not started *)
+Example C17_task_nonvacuous :
+  let acts := [ {| as_id := 1; as_ws := [(false, 1)]; as_tag := RNone |};
+                {| as_id := 2; as_ws := [(false, 2); (true, 3)]; as_tag := RBaseExc |};
+                {| as_id := 3; as_ws := [(false, 4)]; as_tag := RNone |} ] in
+  task_outcome acts = APropagates /\ map as_id (started acts) = [1; 2]%nat /\
+  observe [1; 2; 3]%nat [] (srun false false (task_ops true 0 acts)) = [0; -2; 1; -2; 2; -1; -3].
+Proof. vm_compute. auto. Qed.
 
 (* two executions that overlap without being nested (two worker threads of the thread runner)
    leave a Writer installed: the statement cannot be extended to all interleavings (finding K1) *)
 Theorem C17_restore_overlap_refuted :
-  exists ops, s_cell (srun false ops) <> SOrig.
-Proof. exists [Enter 1 false; Enter 2 false; Exit 1; Exit 2]. vm_compute. discriminate. Qed.
+  exists ops, s_cell (srun false false ops) <> SOrig.
+Proof.
+  exists [Enter 1 (MCapture SNone) (MCapture SNone); Enter 2 (MCapture SNone) (MCapture SNone); Exit 1 RNone; Exit 2 RNone].
+  vm_compute. discriminate.
+Qed.
 Print Assumptions C17_restore_overlap_refuted.
 
 (* the code before the repair (legacy placement of _prepare_kwargs after the swap): one action
    whose kwargs cannot be prepared leaves the Writer installed even in sequential execution *)
 Theorem C17_restore_kwargs_legacy_refuted :
-  exists ids, s_cell (srun true (sequential ids)) <> SOrig.
-Proof. exists [(1%nat, true)]. vm_compute. discriminate. Qed.
+  exists xs, s_cell (srun true false (sequential xs)) <> SOrig.
+Proof. exists [SFail 1]. vm_compute. discriminate. Qed.
 Print Assumptions C17_restore_kwargs_legacy_refuted.
